@@ -372,6 +372,19 @@ class FnL(_BaseFn):
             s = N("for", s.pos, pat=N("pid", s.pat.pos, name=new, mut=False), body=s.body, iter=s.iter)
         return _BaseFn.for_(self, s, code)
 
+    def translate(self, toks):
+        # `qualified_fields`: nested `self` fields whose last component is not unique (`state.pv` / `left_state.pv`) get the
+        # whole path as their Lean name (`left_state_pv`); pm names a field by its last component only
+        q = set(self.spec.get("qualified_fields", []))
+        if not q:
+            return _BaseFn.translate(self, toks)
+        old = pm.lean_name
+        pm.lean_name = lambda rust: rust.replace(".", "_") if rust in q else old(rust)
+        try:
+            return _BaseFn.translate(self, toks)
+        finally:
+            pm.lean_name = old
+
     def macro(self, e, code, expected):
         if e.name == "vec" and not e.args:
             if not isinstance(expected, TSeq):
@@ -651,6 +664,59 @@ unit(name="SrcMyersBuilder", props="properties C09, C10", file="src/pattern_matc
                                                          args=["&[u8]", "Option<&AmbMap>", "Option<&[u8]>"],
                                                          ret="(Vec<Peq>, usize, Vec<State>)")},
                      theorem="RbV.Thm.GenSrcMyersNew.buildLong_eq_model")])
+
+
+
+# ---- traceback (task 3, first part): the cursor moves of the single-word handler ---------------------------------------------
+# `State::adjust_dist`, `State::max` (myers_impl.rs) and `ShortTracebackHandler::{move_up, move_up_left, move_left_down_if_better,
+# finished, pos_bitvec}`, `ShortStatesHandler::{init, set_max_state, add_state}` (simple.rs).  A handler is held field by field:
+# `state` / `left_state` (`State`), `max_mask`, `pos_bitvec`, `left_mask`.  Not translated: `move_to_left` / `new` (the iterator
+# chain `Rev<Iter>.chain(Cycle<..>)`), `adjust_by_mask` (`count_ones`), `Traceback::{new, add_state, _traceback_at}`.
+unit(name="SrcMyersTbState", props="property C10", file="src/pattern_matching/myers/myers_impl.rs",
+     imports=["RbV.Basic.RsSemWord", "RbV.Gen.SrcMyersState"], word_types=pm.MYERS_WORDS, type_paths=pm.MYERS_PATHS,
+     structs=pm.MYERS_STRUCTS,
+     functions=[dict(name="State::adjust_dist", lean="adjustDist", header="pub fn adjust_dist(&mut self, pos_mask: T)",
+                     self_fields=[("pv", "T"), ("mv", "T"), ("dist", "D")], params=[("pos_mask", "T")], ret=None,
+                     theorem="RbV.Thm.GenSrcMyersTb.adjustDist_eq_model"),
+                dict(name="State::max", lean="max", header="pub fn max() -> Self", params=[], ret="State",
+                     calls={"Self::init": dict(lean="RbV.Gen.SrcMyersState.init", extra=["w", "wd"], args=["D"], ret="State")},
+                     theorem="RbV.Thm.GenSrcMyersTb.max_eq_model")])
+
+TB_H = [("state.pv", "T"), ("state.mv", "T"), ("state.dist", "DistType"), ("left_state.pv", "T"), ("left_state.mv", "T"),
+        ("left_state.dist", "DistType"), ("max_mask", "T"), ("pos_bitvec", "T"), ("left_mask", "T")]
+TBS = "RbV.Gen.SrcMyersTbState."
+TB_Q = ["left_state.pv", "left_state.mv", "left_state.dist"]
+unit(name="SrcMyersTbShort", props="property C10", file="src/pattern_matching/myers/simple.rs",
+     imports=["RbV.Basic.RsSemWord", "RbV.Gen.SrcMyersState", "RbV.Gen.SrcMyersTbState"], word_types=pm.MYERS_WORDS,
+     type_paths=pm.MYERS_PATHS, structs=pm.MYERS_STRUCTS,
+     functions=[dict(name="ShortTracebackHandler::move_up", lean="moveUp", header="fn move_up(&mut self, adjust_dist: bool)",
+                     within="impl<'a, T> TracebackHandler<'a, T, T::DistType> for ShortTracebackHandler<'a, T> where T: BitVec + 'a,",
+                     qualified_fields=TB_Q, self_fields=TB_H, params=[("adjust_dist", "bool")], ret=None,
+                     calls={"self.state.adjust_dist": dict(lean=TBS + "adjustDist", extra=["w", "wd"],
+                                                           self_args=["state.pv", "state.mv", "state.dist"],
+                                                           self_outs=["state.dist"], args=["T"], ret=None)},
+                     theorem="RbV.Thm.GenSrcMyersTb.moveUp_eq_model"),
+                dict(name="ShortTracebackHandler::move_up_left", lean="moveUpLeft",
+                     header="fn move_up_left(&mut self, adjust_dist: bool)",
+                     within="impl<'a, T> TracebackHandler<'a, T, T::DistType> for ShortTracebackHandler<'a, T> where T: BitVec + 'a,",
+                     qualified_fields=TB_Q, self_fields=TB_H, params=[("adjust_dist", "bool")], ret=None,
+                     calls={"self.left_state.adjust_dist": dict(lean=TBS + "adjustDist", extra=["w", "wd"],
+                                                                self_args=["left_state.pv", "left_state.mv", "left_state.dist"],
+                                                                self_outs=["left_state.dist"], args=["T"], ret=None)},
+                     theorem="RbV.Thm.GenSrcMyersTb.moveUpLeft_eq_model"),
+                dict(name="ShortTracebackHandler::move_left_down_if_better", lean="moveLeftDownIfBetter",
+                     header="fn move_left_down_if_better(&mut self) -> bool",
+                     within="impl<'a, T> TracebackHandler<'a, T, T::DistType> for ShortTracebackHandler<'a, T> where T: BitVec + 'a,",
+                     qualified_fields=TB_Q, self_fields=TB_H, params=[], ret="bool",
+                     theorem="RbV.Thm.GenSrcMyersTb.moveLeftDownIfBetter_eq_model"),
+                dict(name="ShortTracebackHandler::finished", lean="finished", header="fn finished(&self) -> bool",
+                     within="impl<'a, T> TracebackHandler<'a, T, T::DistType> for ShortTracebackHandler<'a, T> where T: BitVec + 'a,",
+                     qualified_fields=TB_Q, self_fields=TB_H, params=[], ret="bool",
+                     theorem="RbV.Thm.GenSrcMyersTb.finished_eq_model"),
+                dict(name="ShortTracebackHandler::pos_bitvec", lean="posBitvec", header="fn pos_bitvec(&self) -> T",
+                     within="impl<'a, T> TracebackHandler<'a, T, T::DistType> for ShortTracebackHandler<'a, T> where T: BitVec + 'a,",
+                     qualified_fields=TB_Q, self_fields=TB_H, params=[], ret="T",
+                     theorem="RbV.Thm.GenSrcMyersTb.finished_eq_model")])
 
 
 # ================================================================================================== self-test / CLI
